@@ -549,11 +549,11 @@ def schedule_run(
                     if bad is not None:
                         return P.fail("%s/schedule/%s/%s" % (prop, workload, bad[0]), {"workload": workload, "trace": trace[:30], "injected": injected, "detail": bad[1]})
                 info = {"workload": workload, "trace": trace[:30], "injected": injected, "errors": w.handler_errors[:3]}
-                if compare in ("reference", "counts", "workflow") and ref is not None:
+                if compare in ("reference", "counts", "workflow", "stages") and ref is not None:
                     rs = ref["summary"]
                     if summ["workflow"] != rs["workflow"]:
                         return P.fail("%s/schedule/%s/outcome_differs/%s" % (prop, workload, state_sig(summ)), {"expected": rs["workflow"], "got": summ["workflow"], "stages": summ["stages"], "tasks": summ["tasks"], **info})
-                    if compare in ("reference", "counts") and summ["stages"] != rs["stages"]:
+                    if compare in ("reference", "counts", "stages") and summ["stages"] != rs["stages"]:
                         return P.fail("%s/schedule/%s/stage_outcome_differs/%s" % (prop, workload, state_sig(summ)), {"expected": rs["stages"], "got": summ["stages"], **info})
                     if compare == "reference":
                         a, b = small_view(_ledger_view(w)), small_view(ref["ledger"])
@@ -564,7 +564,7 @@ def schedule_run(
                         ex, mi = sorted((a - b).elements()), sorted((b - a).elements())
                         sig = "extra=%s,missing=%s" % (sorted({"%s.%s" % (e[0], e[1]) for e in ex}), sorted({"%s.%s" % (e[0], e[1]) for e in mi}))
                         return P.fail("%s/schedule/%s/executions_differ/%s" % (prop, workload, sig.replace(" ", "")), {"extra": ex[:4], "missing": mi[:4], **info})
-                if compare in ("reference", "counts", "workflow", "quiescent"):
+                if compare in ("reference", "counts", "workflow", "stages", "quiescent"):
                     q = quiescent_ok(snap)
                     if q is not None:
                         return P.fail("%s/schedule/%s/not_quiescent/%s" % (prop, workload, state_sig(summ)), {"why": q, **info})
@@ -949,7 +949,7 @@ def post_handled_once(w: World, snap: dict[str, Any], info: dict[str, Any]) -> t
 
 def dedup_run(workload: str, noack: list[Any], inject_at: Any, what: str, trust: bool, choices: list[Any] | None = None, lock_seconds: float = 1.0) -> bool:
     inj = {"restart": inject_restart, "reset": inject_filter_reset, "none": None}[what]
-    mode = {"disc2": "counts", "nofm23": "counts", "diamond_fail": "workflow", "choice": "workflow"}.get(workload, "reference")
+    mode = {"disc2": "counts", "nofm23": "counts", "diamond_fail": "workflow", "choice": "workflow", "backjump1sib": "stages"}.get(workload, "reference")
 
     def setup(w: World) -> None:
         if trust:
